@@ -1749,3 +1749,374 @@ Proof.
     + simpl. destruct (Nat.ltb_spec i (length p)); [|lia]. apply (oi_tbl I E0). apply in_tbl_fields. right.
       exists (nth i p 0). split; [apply Hlt; exact Hi|reflexivity].
 Qed.
+
+(* ---------------------------------------------------------------------------------------------- *)
+(** * F1. safe_to_call follows from the object invariant *)
+
+Lemma aux_ok_of_inv : forall o, obj_inv o -> aux_ok o = true.
+Proof.
+  intros o I. unfold aux_ok. rewrite (oi_auxlen I), Nat.eqb_refl, andb_true_r. apply andb_true_iff. split.
+  - destruct (Nat.eqb_spec (naux o) 0) as [E|E]; [|apply (oi_aux0 I E)].
+    pose proof (oi_ok I FAux) as H. destruct (get o FAux); simpl in *; congruence.
+  - unfold owned_all, aux_fields. apply forallb_forall. intros f Hf. apply in_flat_map in Hf. destruct Hf as [i [Hi Hf]].
+    apply in_idx in Hi. destruct (oi_auxi I _ Hi) as [A [B C]]. simpl in Hf. intuition (subst; assumption).
+Qed.
+
+Lemma has_extents_of_inv : forall o, obj_inv o -> ndim o <> 0 -> has_extents o = true.
+Proof.
+  intros o I E. unfold has_extents. rewrite (oi_tbl I E FExtents), (oi_tbl I E FExtents0); [reflexivity| |]; simpl; auto 10.
+Qed.
+
+Lemma built_of_inv : forall o, obj_inv o -> ndim o <> 0 -> built o = true.
+Proof.
+  intros o I E. unfold built. rewrite (aux_ok_of_inv _ I), andb_true_r.
+  destruct (Nat.eqb_spec (ndim o) 0) as [E'|_]; [contradiction|]. cbn [negb andb].
+  unfold tbl_ok. apply andb_true_iff. split.
+  - unfold owned_all, core_fields. apply forallb_forall. intros f Hf. apply (oi_tbl I E). apply in_tbl_fields.
+    apply in_app_or in Hf. destruct Hf as [Hf|Hf].
+    + left. simpl in Hf. simpl. intuition.
+    + right. apply in_map_iff in Hf. destruct Hf as [i [<- Hi]]. apply in_idx in Hi. eauto.
+  - unfold opt_pair_ok. rewrite (oi_tbl I E FExtents), (oi_tbl I E FExtents0) by (simpl; auto 10).
+    rewrite orb_true_r. cbn [andb]. pose proof (oi_ok I FPeriods) as H. destruct (get o FPeriods); simpl in *; congruence.
+Qed.
+
+Lemma clear_safe_of_inv : forall o, obj_inv o -> clear_safe o = true.
+Proof.
+  intros o I. unfold clear_safe.
+  rewrite (no_garbage_pointwise o (oi_keys I) (oi_ok I)). cbn [andb].
+  destruct (Nat.eq_dec (ndim o) 0) as [E|E].
+  - rewrite (oi_tbl0 I E FCoeff eq_refl). rewrite E. reflexivity.
+  - rewrite (oi_tbl I E FStrides), (oi_tbl I E FNaxes), (oi_tbl I E FOrder), (oi_tbl I E FNknots) by (simpl; auto 10).
+    rewrite !orb_true_r. reflexivity.
+Qed.
+
+Lemma safe_of_inv : forall o oother x, obj_inv o -> (forall o2, oother = Some o2 -> obj_inv o2) -> safe cfg_fixed o oother x = true.
+Proof.
+  intros o oother x I I2. destruct x; cbn [safe fx_moveasg fx_conv fx_perm fx_eq fx_clear cfg_fixed destructor_safe andb]; try reflexivity.
+  - (* write_key *) rewrite (aux_ok_of_inv _ I). apply orb_true_r.
+  - (* convolve *)
+    destruct (Nat.ltb_spec dim (ndim o)) as [Hd|Hd]; cbn [negb orb]; [|reflexivity].
+    destruct (Nat.ltb_spec nk 2) as [Hk|Hk]; [reflexivity|].
+    assert (E : ndim o <> 0) by lia.
+    rewrite (built_of_inv _ I E), (has_extents_of_inv _ I E). cbn [andb].
+    destruct (Nat.leb_spec 1 nk); [reflexivity|lia].
+  - (* permute *)
+    destruct (is_perm (ndim o) p); cbn [negb]; [|reflexivity].
+    destruct (Nat.eqb_spec (ndim o) 0) as [E|E]; [reflexivity|].
+    rewrite (built_of_inv _ I E), (has_extents_of_inv _ I E). reflexivity.
+  - (* move assignment runs the destructor on the old value *) apply clear_safe_of_inv; exact I.
+  - (* == *)
+    destruct oother as [o2|]; [|reflexivity].
+    destruct (Nat.eqb_spec (ndim o) (ndim o2)) as [E|E]; cbn [negb]; [|reflexivity].
+    destruct (Nat.eqb_spec (ndim o) 0) as [E0|E0]; [reflexivity|].
+    rewrite (built_of_inv _ I E0). rewrite (built_of_inv _ (I2 _ eq_refl)) by congruence. reflexivity.
+  - (* write *) destruct (Nat.eqb_spec (ndim o) 0) as [E0|E0]; [reflexivity|]. rewrite (built_of_inv _ I E0). reflexivity.
+  - (* eval *) destruct (Nat.eqb_spec (ndim o) 0) as [E0|E0]; [reflexivity|].
+    rewrite (built_of_inv _ I E0), (has_extents_of_inv _ I E0). reflexivity.
+  - (* destructor *) apply clear_safe_of_inv; exact I.
+Qed.
+
+(* ---------------------------------------------------------------------------------------------- *)
+(** * F2. the world invariant *)
+
+(* an object slot that holds no object owns nothing, like an empty table *)
+Definition cur (w : world) (j : nat) : obj := match get_obj w j with Some o => o | None => empty_obj end.
+Definition frame (w : world) (j : nat) (id b : nat) : Prop := exists k f, k <> j /\ get (cur w k) f = Owned id b.
+
+(* the heap is exactly the disjoint union of what the live objects own *)
+Record heap_inv (w : world) : Prop := {
+  g_mem : mem_ok (wm w);
+  g_sound : forall j f id b, get (cur w j) f = Owned id b -> In (id, b) (hp (wm w));
+  g_inj : forall j k f g id b b', get (cur w j) f = Owned id b -> get (cur w k) g = Owned id b' -> j = k /\ f = g;
+  g_complete : forall id b, In (id, b) (hp (wm w)) -> exists j f, get (cur w j) f = Owned id b
+}.
+
+Lemma heap_inv_rel : forall w j, heap_inv w -> rel (frame w j) (cur w j) (wm w).
+Proof.
+  intros w j [Hm Hs Hi Hc]. constructor; auto.
+  - intros f id b H. eapply Hs; eauto.
+  - intros f g id b b' H1 H2. eapply Hi; eauto.
+  - intros id b [k [f [Hk H]]]. split; [eapply Hs; eauto|]. intros g b' H'. destruct (Hi _ _ _ _ _ _ _ H H') as [E _]. contradiction.
+  - intros id b H. destruct (Hc _ _ H) as [k [f Hf]]. destruct (Nat.eq_dec k j) as [->|Hne]; [right; eauto|left; exists k, f; auto].
+Qed.
+
+Lemma rel_heap_inv : forall w w' j o', heap_inv w -> rel (frame w j) o' (wm w') ->
+  cur w' j = o' -> (forall k, k <> j -> cur w' k = cur w k) -> heap_inv w'.
+Proof.
+  intros w w' j o' [Hm Hs Hi Hc] [Rm Rs Ri Rf Rc] Ej Ek. constructor; auto.
+  - intros k f id b H. destruct (Nat.eq_dec k j) as [->|Hne].
+    + rewrite Ej in H. eauto.
+    + rewrite (Ek _ Hne) in H. apply (Rf id b). exists k, f. auto.
+  - intros k1 k2 f g id b b' H1 H2.
+    destruct (Nat.eq_dec k1 j) as [->|N1]; destruct (Nat.eq_dec k2 j) as [->|N2].
+    + rewrite Ej in H1, H2. split; [reflexivity|eauto].
+    + rewrite Ej in H1. rewrite (Ek _ N2) in H2. exfalso.
+      destruct (Rf id b') as [_ Hno]; [exists k2, g; auto|]. apply (Hno _ _ H1).
+    + rewrite Ej in H2. rewrite (Ek _ N1) in H1. exfalso.
+      destruct (Rf id b) as [_ Hno]; [exists k1, f; auto|]. apply (Hno _ _ H2).
+    + rewrite (Ek _ N1) in H1. rewrite (Ek _ N2) in H2. eauto.
+  - intros id b H. destruct (Rc _ _ H) as [[k [f [Hk Hf]]]|[f Hf]].
+    + exists k, f. rewrite (Ek _ Hk). exact Hf.
+    + exists j, f. rewrite Ej. exact Hf.
+Qed.
+
+(* relabelling the object slots *)
+Lemma heap_inv_reindex : forall w w' (sg : nat -> nat), heap_inv w -> wm w' = wm w ->
+  (forall k, cur w' k = cur w (sg k)) -> (forall a b, sg a = sg b -> a = b) -> (forall a, exists b, sg b = a) -> heap_inv w'.
+Proof.
+  intros w w' sg [Hm Hs Hi Hc] Em Ec Sinj Ssur. constructor; rewrite ?Em; auto.
+  - intros k f id b H. rewrite Ec in H. eauto.
+  - intros k1 k2 f g id b b' H1 H2. rewrite Ec in H1, H2. destruct (Hi _ _ _ _ _ _ _ H1 H2) as [E1 E2]. split; auto.
+  - intros id b H. destruct (Hc _ _ H) as [k [f Hf]]. destruct (Ssur k) as [k' <-]. exists k', f. rewrite Ec. exact Hf.
+Qed.
+
+(** well-formed operations: the side conditions under which the invariant is stated.
+    - the operation names one of the four object slots of the model (`world0`);
+    - a file that gets past the dimension check has ndim >= 1 (fitsio.h:193 throws otherwise: that is phase PDim)
+      and its naxes[] has ndim entries;
+    - a fit that passes the sanity checks of fit.h:26-67 has ndim >= 1 and as many knot vectors as orders;
+    - the byte count of a key is a function of the key's identity (same string, same strlen). *)
+Definition wf_file (kl : nat -> nat) (f : file) : Prop :=
+  f_ndim f <> 0 /\ length (f_naxes f) = f_ndim f /\ keys_len kl (map fst (f_aux f)).
+Definition wf_op (kl : nat -> nat) (x : op) : Prop :=
+  target x < 4 /\
+  match x with
+  | ONewRead _ f | ORead _ f => wf_file kl f
+  | OFit _ s => ft_invalid s = false -> ft_orders s <> [] /\ length (ft_nknots s) = length (ft_orders s)
+  | OWriteKey _ inv e => inv = false -> aklen e = kl (akey e)
+  | _ => True
+  end.
+
+Record Inv (kl : nat -> nat) (w : world) : Prop := {
+  inv_len : length (objs w) = 4;
+  inv_nc : crashed w = false;
+  inv_heap : heap_inv w;
+  inv_obj : forall j o, get_obj w j = Some o -> obj_inv o /\ keys_len kl (auxs o)
+}.
+
+Arguments inv_len {kl w} _. Arguments inv_nc {kl w} _. Arguments inv_heap {kl w} _. Arguments inv_obj {kl w} _ _ _ _.
+
+Lemma Inv_world0 : forall kl, Inv kl world0.
+Proof.
+  intros kl. constructor; try reflexivity.
+  - assert (C : forall j, cur world0 j = empty_obj).
+    { intros j. unfold cur, get_obj, world0. cbn [objs]. destruct j as [|[|[|[|[|j]]]]]; reflexivity. }
+    constructor; [apply mem_ok_mem0| | |].
+    + intros j f id b H. rewrite C in H. discriminate.
+    + intros j k f g id b b' H. rewrite C in H. discriminate.
+    + intros id b H. contradiction.
+  - intros j o H. unfold get_obj, world0 in H. cbn [objs] in H. destruct j as [|[|[|[|[|j]]]]]; discriminate.
+Qed.
+
+Lemma get_set_obj_same : forall w j x m, j < length (objs w) -> get_obj (set_obj w j x m) j = x.
+Proof. intros w j x m H. unfold get_obj, set_obj. cbn [objs]. apply nth_set_nth_same; exact H. Qed.
+Lemma get_set_obj_other : forall w j k x m, k <> j -> get_obj (set_obj w j x m) k = get_obj w k.
+Proof. intros w j k x m H. unfold get_obj, set_obj. cbn [objs]. apply nth_set_nth_other; exact H. Qed.
+
+Definition oo (x : option obj) : obj := match x with Some o => o | None => empty_obj end.
+
+Lemma cur_set_obj_same : forall w j x m, j < length (objs w) -> cur (set_obj w j x m) j = oo x.
+Proof. intros. unfold cur. rewrite get_set_obj_same by assumption. reflexivity. Qed.
+Lemma cur_set_obj_other : forall w j k x m, k <> j -> cur (set_obj w j x m) k = cur w k.
+Proof. intros. unfold cur. rewrite get_set_obj_other by assumption. reflexivity. Qed.
+
+(* the generic update: slot j receives x (an object satisfying the invariant, or nothing) and the memory m',
+   where m' is related to the new content of j with the other objects as frame *)
+Lemma Inv_set : forall kl w j x m', Inv kl w -> j < 4 ->
+  rel (frame w j) (oo x) m' -> (forall o, x = Some o -> obj_inv o /\ keys_len kl (auxs o)) ->
+  Inv kl (set_obj w j x m').
+Proof.
+  intros kl w j x m' [HL HN HH HO] Hj HR Hx.
+  assert (Hj' : j < length (objs w)) by (rewrite HL; exact Hj).
+  constructor.
+  - unfold set_obj. cbn [objs]. rewrite length_set_nth. exact HL.
+  - exact HN.
+  - apply (rel_heap_inv w (set_obj w j x m') j (oo x) HH); [exact HR|apply cur_set_obj_same; exact Hj'|].
+    intros k Hk. apply cur_set_obj_other; exact Hk.
+  - intros k o H. destruct (Nat.eq_dec k j) as [->|Hne].
+    + rewrite get_set_obj_same in H by exact Hj'. apply Hx; exact H.
+    + rewrite get_set_obj_other in H by exact Hne. apply (HO k); exact H.
+Qed.
+
+Lemma Inv_rel : forall kl w j, Inv kl w -> rel (frame w j) (cur w j) (wm w).
+Proof. intros kl w j HI. apply heap_inv_rel. apply (inv_heap HI). Qed.
+
+Lemma cur_some : forall w j o, get_obj w j = Some o -> cur w j = o.
+Proof. intros w j o H. unfold cur. rewrite H. reflexivity. Qed.
+Lemma cur_none : forall w j, get_obj w j = None -> cur w j = empty_obj.
+Proof. intros w j H. unfold cur. rewrite H. reflexivity. Qed.
+
+(* ---------------------------------------------------------------------------------------------- *)
+(** * F3. every operation preserves the invariant and is never undefined behaviour *)
+
+Lemma get_obj_lt : forall w j o, get_obj w j = Some o -> j < length (objs w).
+Proof.
+  intros w j o H. unfold get_obj in H. destruct (Nat.lt_ge_cases j (length (objs w))) as [A|A]; [exact A|].
+  rewrite nth_overflow in H by exact A. discriminate.
+Qed.
+
+Definition swap (i j k : nat) : nat := if Nat.eqb k j then i else if Nat.eqb k i then j else k.
+
+Lemma swap_inj : forall i j a b, swap i j a = swap i j b -> a = b.
+Proof.
+  intros i j a b. unfold swap.
+  destruct (Nat.eqb_spec a j); destruct (Nat.eqb_spec a i); destruct (Nat.eqb_spec b j); destruct (Nat.eqb_spec b i); lia.
+Qed.
+Lemma swap_sur : forall i j a, exists b, swap i j b = a.
+Proof.
+  intros i j a. exists (swap i j a). unfold swap.
+  destruct (Nat.eqb_spec a j); destruct (Nat.eqb_spec a i); subst;
+    repeat match goal with |- context[Nat.eqb ?x ?y] => destruct (Nat.eqb_spec x y) end; lia.
+Qed.
+
+Lemma Inv_swap : forall kl w1 w' i j, Inv kl w1 -> length (objs w') = 4 -> crashed w' = false -> wm w' = wm w1 ->
+  (forall k, cur w' k = cur w1 (swap i j k)) ->
+  (forall k o, get_obj w' k = Some o -> obj_inv o /\ keys_len kl (auxs o)) -> Inv kl w'.
+Proof.
+  intros kl w1 w' i j HI HL HN Hm Hc Ho. constructor; auto.
+  apply (heap_inv_reindex w1 w' (swap i j) (inv_heap HI) Hm Hc (swap_inj i j) (swap_sur i j)).
+Qed.
+
+Lemma keys_len_nil : forall kl, keys_len kl [].
+Proof. intros; constructor. Qed.
+
+Lemma step_Inv : forall kl F w x, Inv kl w -> wf_op kl x ->
+  Inv kl (fst (step cfg_fixed F w x)) /\ snd (step cfg_fixed F w x) <> UB.
+Proof.
+  intros kl F w x HI [Ht Hwf]. unfold step. rewrite (inv_nc HI).
+  pose proof (inv_len HI) as HL.
+  assert (Hskip : Inv kl (fst (w, Skipped)) /\ snd (w, Skipped) <> UB) by (split; [exact HI|discriminate]).
+  destruct x as [j|j f|j f|j s|j inv e|j dim nk|j p|j i|j i|i j|j fails|j|j]; cbn [target] in Ht; cbv beta iota zeta; cbn [target].
+  - (* ONew *)
+    destruct (get_obj w j) as [o|] eqn:Ej; [exact Hskip|]. cbn [fst snd]. split; [|discriminate].
+    apply Inv_set; auto.
+    + cbn [oo]. rewrite <- (cur_none _ _ Ej). apply (Inv_rel kl w j HI).
+    + intros o E. inversion E; subst. split; [apply obj_inv_empty|apply keys_len_nil].
+  - (* ONewRead *)
+    destruct (get_obj w j) as [o|] eqn:Ej; [exact Hskip|].
+    destruct Hwf as [W1 [W2 W3]].
+    assert (HR0 : rel (frame w j) empty_obj (wm w)) by (rewrite <- (cur_none _ _ Ej); apply (Inv_rel kl w j HI)).
+    destruct (step_read cfg_fixed F (wm w) empty_obj f) as [[o' m'] r] eqn:E.
+    destruct (read_ok _ _ _ _ _ _ _ _ obj_inv_empty HR0 W1 W2 E) as [I' [HR' HA]].
+    destruct r as [why|]; cbn [fst snd]; (split; [|discriminate]).
+    + assert (o' = empty_obj) as -> by (destruct (read_failed cfg_fixed F (wm w) empty_obj f o' m' why eq_refl E); assumption).
+      change (lose_all m' empty_obj) with m'. apply Inv_set; auto. intros ? E'; discriminate.
+    + apply Inv_set; auto. intros o0 E'. inversion E'; subst. split; [exact I'|].
+      destruct HA as [HA|[HA|HA]]; rewrite HA; [apply keys_len_nil|apply keys_len_nil|exact W3].
+  - (* ORead *)
+    destruct (get_obj w j) as [o|] eqn:Ej; [|exact Hskip].
+    destruct (inv_obj HI _ _ Ej) as [Io HLo].
+    rewrite (safe_of_inv o None (ORead j f) Io) by (intros; discriminate). cbn [negb].
+    destruct Hwf as [W1 [W2 W3]].
+    assert (HR0 : rel (frame w j) o (wm w)) by (rewrite <- (cur_some _ _ _ Ej); apply (Inv_rel kl w j HI)).
+    destruct (step_read cfg_fixed F (wm w) o f) as [[o' m'] r] eqn:E.
+    destruct (read_ok _ _ _ _ _ _ _ _ Io HR0 W1 W2 E) as [I' [HR' HA]].
+    assert (HK' : keys_len kl (auxs o')) by (destruct HA as [HA|[HA|HA]]; rewrite HA; [exact HLo|apply keys_len_nil|exact W3]).
+    destruct r; cbn [finish fst snd]; (split; [|discriminate]); apply Inv_set; auto; intros o0 E'; inversion E'; subst; auto.
+  - (* OFit *)
+    destruct (get_obj w j) as [o|] eqn:Ej; [|exact Hskip].
+    destruct (inv_obj HI _ _ Ej) as [Io HLo].
+    rewrite (safe_of_inv o None (OFit j s) Io) by (intros; discriminate). cbn [negb].
+    assert (HR0 : rel (frame w j) o (wm w)) by (rewrite <- (cur_some _ _ _ Ej); apply (Inv_rel kl w j HI)).
+    destruct (step_fit cfg_fixed F (wm w) o s) as [[o' m'] r] eqn:E.
+    destruct (fit_ok _ _ _ _ _ _ _ _ Io HR0 Hwf E) as [I' [HR' HA]].
+    assert (HK' : keys_len kl (auxs o')) by (destruct HA as [HA|HA]; rewrite HA; [exact HLo|apply keys_len_nil]).
+    destruct r; cbn [finish fst snd]; (split; [|discriminate]); apply Inv_set; auto; intros o0 E'; inversion E'; subst; auto.
+  - (* OWriteKey *)
+    destruct (get_obj w j) as [o|] eqn:Ej; [|exact Hskip].
+    destruct (inv_obj HI _ _ Ej) as [Io HLo].
+    rewrite (safe_of_inv o None (OWriteKey j inv e) Io) by (intros; discriminate). cbn [negb].
+    assert (HR0 : rel (frame w j) o (wm w)) by (rewrite <- (cur_some _ _ _ Ej); apply (Inv_rel kl w j HI)).
+    destruct (step_write_key F (wm w) o inv e) as [[o' m'] r] eqn:E.
+    destruct (write_key_ok kl _ _ _ _ _ _ _ _ _ Io HLo HR0 Hwf E) as [I' [HR' HK']].
+    destruct r; cbn [finish fst snd]; (split; [|discriminate]); apply Inv_set; auto; intros o0 E'; inversion E'; subst; auto.
+  - (* OConvolve *)
+    destruct (get_obj w j) as [o|] eqn:Ej; [|exact Hskip].
+    destruct (inv_obj HI _ _ Ej) as [Io HLo].
+    rewrite (safe_of_inv o None (OConvolve j dim nk) Io) by (intros; discriminate). cbn [negb].
+    assert (HR0 : rel (frame w j) o (wm w)) by (rewrite <- (cur_some _ _ _ Ej); apply (Inv_rel kl w j HI)).
+    destruct (step_convolve cfg_fixed F (wm w) o dim nk) as [[o' m'] r] eqn:E.
+    destruct (convolve_ok _ _ _ _ _ _ _ _ _ Io HR0 E) as [I' [HR' HA]].
+    assert (HK' : keys_len kl (auxs o')) by (destruct HA as [HA|HA]; rewrite HA; [exact HLo|apply keys_len_nil]).
+    destruct r; cbn [finish fst snd]; (split; [|discriminate]); apply Inv_set; auto; intros o0 E'; inversion E'; subst; auto.
+  - (* OPermute *)
+    destruct (get_obj w j) as [o|] eqn:Ej; [|exact Hskip].
+    destruct (inv_obj HI _ _ Ej) as [Io HLo].
+    rewrite (safe_of_inv o None (OPermute j p) Io) by (intros; discriminate). cbn [negb].
+    assert (HR0 : rel (frame w j) o (wm w)) by (rewrite <- (cur_some _ _ _ Ej); apply (Inv_rel kl w j HI)).
+    destruct (is_perm (ndim o) p) eqn:Ep; cbn [negb fst snd]; [|split; [exact HI|discriminate]].
+    destruct (Nat.eqb_spec (ndim o) 0) as [E0|E0]; cbn [fst snd]; [split; [exact HI|discriminate]|].
+    split; [|discriminate]. destruct (permute_ok (frame w j) o (wm w) p Io HR0 E0 Ep) as [I' [HR' HA]].
+    apply Inv_set; auto. intros o0 E'. inversion E'; subst. split; [exact I'|]. rewrite HA. exact HLo.
+  - (* OMoveCtor *)
+    destruct (get_obj w j) as [oj|] eqn:Ej; [destruct (get_obj w i); exact Hskip|].
+    destruct (get_obj w i) as [oi|] eqn:Ei; [|exact Hskip].
+    destruct (Nat.eqb_spec i j) as [Eij|Eij]; [exact Hskip|]. cbn [fst snd]. split; [|discriminate].
+    pose proof (get_obj_lt _ _ _ Ei) as Hi.
+    assert (Hj : j < length (objs w)) by (rewrite HL; exact Ht).
+    apply (Inv_swap kl w _ i j HI); try reflexivity.
+    + unfold set_obj. cbn [objs]. rewrite !length_set_nth. exact HL.
+    + exact (inv_nc HI).
+    + intros k. unfold swap. destruct (Nat.eqb_spec k j) as [->|Nj]; [|destruct (Nat.eqb_spec k i) as [->|Ni]].
+      * rewrite cur_set_obj_other by auto. rewrite cur_set_obj_same by exact Hj. rewrite (cur_some _ _ _ Ei). reflexivity.
+      * rewrite cur_set_obj_same by (unfold set_obj; cbn [objs]; rewrite length_set_nth; exact Hi).
+        rewrite (cur_none _ _ Ej). reflexivity.
+      * rewrite !cur_set_obj_other by auto. reflexivity.
+    + intros k o H. destruct (Nat.eq_dec k i) as [->|Ni]; [|destruct (Nat.eq_dec k j) as [->|Nj]].
+      * rewrite get_set_obj_same in H by (unfold set_obj; cbn [objs]; rewrite length_set_nth; exact Hi).
+        inversion H; subst. split; [apply obj_inv_empty|apply keys_len_nil].
+      * rewrite get_set_obj_other in H by auto. rewrite get_set_obj_same in H by exact Hj. inversion H; subst.
+        apply (inv_obj HI _ _ Ei).
+      * rewrite !get_set_obj_other in H by auto. apply (inv_obj HI _ _ H).
+  - (* OMoveAssign *)
+    destruct (get_obj w j) as [oj|] eqn:Ej; [|exact Hskip].
+    destruct (get_obj w i) as [oi|] eqn:Ei; [|exact Hskip].
+    destruct (Nat.eqb_spec i j) as [Eij|Eij]; [split; [exact HI|discriminate]|].
+    destruct (inv_obj HI _ _ Ej) as [Ioj HLoj]. destruct (inv_obj HI _ _ Ei) as [Ioi HLoi].
+    rewrite (safe_of_inv oj (Some oi) (OMoveAssign j i) Ioj) by (intros o2 E2; inversion E2; subst; exact Ioi).
+    cbn [negb fx_moveasg cfg_fixed fst snd]. split; [|discriminate].
+    pose proof (get_obj_lt _ _ _ Ei) as Hi. pose proof (get_obj_lt _ _ _ Ej) as Hj.
+    assert (HR0 : rel (frame w j) oj (wm w)) by (rewrite <- (cur_some _ _ _ Ej); apply (Inv_rel kl w j HI)).
+    pose proof (destroy_ok (frame w j) F oj (wm w) Ioj HR0) as HRd.
+    set (md := destroy cfg_fixed F (wm w) oj) in *.
+    assert (HI1 : Inv kl (set_obj w j (Some empty_obj) md)).
+    { apply Inv_set; auto. intros o E. inversion E; subst. split; [apply obj_inv_empty|apply keys_len_nil]. }
+    apply (Inv_swap kl _ _ i j HI1); try reflexivity.
+    + unfold set_obj. cbn [objs]. rewrite !length_set_nth. exact HL.
+    + exact (inv_nc HI).
+    + intros k. unfold swap. destruct (Nat.eqb_spec k j) as [->|Nj]; [|destruct (Nat.eqb_spec k i) as [->|Ni]].
+      * rewrite cur_set_obj_other by auto. rewrite cur_set_obj_same by exact Hj.
+        rewrite cur_set_obj_other by auto. rewrite (cur_some _ _ _ Ei). reflexivity.
+      * rewrite cur_set_obj_same by (unfold set_obj; cbn [objs]; rewrite length_set_nth; exact Hi).
+        rewrite cur_set_obj_same by exact Hj. reflexivity.
+      * rewrite !cur_set_obj_other by auto. reflexivity.
+    + intros k o H. destruct (Nat.eq_dec k i) as [->|Ni]; [|destruct (Nat.eq_dec k j) as [->|Nj]].
+      * rewrite get_set_obj_same in H by (unfold set_obj; cbn [objs]; rewrite length_set_nth; exact Hi).
+        inversion H; subst. split; [apply obj_inv_empty|apply keys_len_nil].
+      * rewrite get_set_obj_other in H by auto. rewrite get_set_obj_same in H by exact Hj. inversion H; subst. auto.
+      * rewrite !get_set_obj_other in H by auto. apply (inv_obj HI _ _ H).
+  - (* OEq *)
+    destruct (get_obj w i) as [oi|] eqn:Ei; [|exact Hskip].
+    destruct (get_obj w j) as [oj|] eqn:Ej; [|exact Hskip].
+    destruct (inv_obj HI _ _ Ej) as [Ioj HLoj]. destruct (inv_obj HI _ _ Ei) as [Ioi HLoi].
+    rewrite (safe_of_inv oi (Some oj) (OEq i j) Ioi) by (intros o2 E2; inversion E2; subst; exact Ioj).
+    cbn [negb fst snd]. split; [exact HI|discriminate].
+  - (* OWrite *)
+    destruct (get_obj w j) as [o|] eqn:Ej; [|exact Hskip].
+    destruct (inv_obj HI _ _ Ej) as [Io HLo].
+    rewrite (safe_of_inv o None (OWrite j fails) Io) by (intros; discriminate). cbn [negb].
+    destruct (ndim o =? 0); [|destruct fails]; cbn [fst snd]; (split; [exact HI|discriminate]).
+  - (* OEval *)
+    destruct (get_obj w j) as [o|] eqn:Ej; [|exact Hskip].
+    destruct (inv_obj HI _ _ Ej) as [Io HLo].
+    rewrite (safe_of_inv o None (OEval j) Io) by (intros; discriminate). cbn [negb].
+    destruct (ndim o =? 0); cbn [fst snd]; (split; [exact HI|discriminate]).
+  - (* ODestroy *)
+    destruct (get_obj w j) as [o|] eqn:Ej; [|exact Hskip].
+    destruct (inv_obj HI _ _ Ej) as [Io HLo].
+    rewrite (safe_of_inv o None (ODestroy j) Io) by (intros; discriminate). cbn [negb fst snd].
+    assert (HR0 : rel (frame w j) o (wm w)) by (rewrite <- (cur_some _ _ _ Ej); apply (Inv_rel kl w j HI)).
+    split; [|discriminate]. apply Inv_set; auto.
+    + cbn [oo]. apply destroy_ok; assumption.
+    + intros ? E'; discriminate.
+Qed.
